@@ -91,12 +91,18 @@ class GaussianMixture:
         best_params = None
         best_lower_bound = -np.inf
 
+        # A given random_state seeds a generator local to this fit; the
+        # process-wide NumPy stream is never reseeded.
         if self.random_state is not None:
-            np.random.seed(self.random_state)
+            rng = np.random.RandomState(self.random_state)
+        else:
+            rng = np.random
 
         for init in range(self.n_init):
             # Initialize parameters
-            weights, means, covariances = self._initialize_parameters(X, sample_weight)
+            weights, means, covariances = self._initialize_parameters(
+                X, sample_weight, rng
+            )
 
             # EM iterations
             lower_bound = -np.inf
@@ -132,7 +138,7 @@ class GaussianMixture:
 
         return self
 
-    def _initialize_parameters(self, X, sample_weight):
+    def _initialize_parameters(self, X, sample_weight, rng=np.random):
         """Initialize GMM parameters using weighted k-means++."""
         n_samples, n_features = X.shape
 
@@ -141,7 +147,7 @@ class GaussianMixture:
 
         # First center: weighted random sample
         cumsum = np.cumsum(sample_weight)
-        r = np.random.rand() * cumsum[-1]
+        r = rng.rand() * cumsum[-1]
         means[0] = X[np.searchsorted(cumsum, r)]
 
         # Remaining centers
@@ -154,7 +160,7 @@ class GaussianMixture:
             probabilities /= np.sum(probabilities)
 
             cumsum = np.cumsum(probabilities)
-            r = np.random.rand() * cumsum[-1]
+            r = rng.rand() * cumsum[-1]
             means[k] = X[np.searchsorted(cumsum, r)]
 
         # Initialize responsibilities and compute initial parameters
